@@ -1,0 +1,159 @@
+// +build verif,linux
+
+// Verification hooks (build tag "verif" only): a Canary on an unprivileged epoll
+// instance and an AF_UNIX datagram socketpair instead of AF_PACKET sockets, with
+// caller-supplied ARP and route tables, plus synchronous frame injection into the
+// real handlers and access to the transmit ring.
+package canary
+
+import (
+	"context"
+	"fmt"
+	"math/rand"
+	"net"
+	"sync"
+	"syscall"
+
+	"github.com/glycerine/rbuf"
+	"github.com/honeytrap/honeytrap/listener/canary/ethernet"
+	"github.com/honeytrap/honeytrap/listener/canary/ipv4"
+	"github.com/honeytrap/honeytrap/pushers"
+)
+
+// VerifCanary wraps a Canary built by NewVerifCanary.
+type VerifCanary struct {
+	C *Canary
+	// PeerFd is the other end of the socketpair: a datagram written to it is
+	// received by the Start() loop as one link-layer frame.
+	PeerFd int
+}
+
+// NewVerifCanary builds a Canary listening on interface ifname (its addresses
+// decide isMe) without raw sockets.
+func NewVerifCanary(ifname string, arp ARPCache, routes RouteTable, events pushers.Channel) (*VerifCanary, error) {
+	intf, err := net.InterfaceByName(ifname)
+	if err != nil {
+		return nil, err
+	}
+	epfd, err := syscall.EpollCreate1(0)
+	if err != nil {
+		return nil, fmt.Errorf("epoll_create1: %s", err.Error())
+	}
+	fds, err := syscall.Socketpair(syscall.AF_UNIX, syscall.SOCK_DGRAM, 0)
+	if err != nil {
+		return nil, fmt.Errorf("socketpair: %s", err.Error())
+	}
+	if err = syscall.EpollCtl(epfd, syscall.EPOLL_CTL_ADD, fds[0], &syscall.EpollEvent{
+		Events: syscall.EPOLLIN | syscall.EPOLLERR,
+		Fd:     int32(fds[0]),
+	}); err != nil {
+		return nil, fmt.Errorf("epollctl: %s", err.Error())
+	}
+	if events == nil {
+		events = pushers.MustDummy()
+	}
+	c := &Canary{
+		ac:                arp,
+		rt:                routes,
+		epfd:              epfd,
+		descriptors:       map[string]int32{intf.Name: int32(fds[0])},
+		networkInterfaces: []net.Interface{*intf},
+		r:                 rand.New(rand.NewSource(1)),
+		knockChan:         make(chan interface{}, 100),
+		events:            events,
+		m:                 sync.Mutex{},
+		ch:                make(chan net.Conn),
+		buffer:            rbuf.NewFixedSizeRingBuf(65535),
+	}
+	return &VerifCanary{C: c, PeerFd: fds[1]}, nil
+}
+
+// StartKnockDetector runs only the knock detector goroutine (for injection mode).
+func (v *VerifCanary) StartKnockDetector(ctx context.Context) { go v.C.knockDetector(ctx) }
+
+// Inject dispatches one link-layer frame synchronously to the real
+// handleICMP/handleTCP/handleUDP, the way the receive loop of Start does.
+// Panics propagate to the caller.
+func (v *VerifCanary) Inject(frame []byte) error {
+	c := v.C
+	buffer := make([]byte, len(frame))
+	copy(buffer, frame)
+	eh, err := ethernet.Parse(buffer)
+	if err != nil {
+		return err
+	}
+	if eh.Type != EthernetTypeIPv4 {
+		return nil
+	}
+	iph, err := ipv4.Parse(eh.Payload[:])
+	if err != nil {
+		return err
+	}
+	data := make([]byte, len(iph.Payload))
+	copy(data, iph.Payload[:])
+	switch iph.Protocol {
+	case 1:
+		return c.handleICMP(eh, iph, data)
+	case 6:
+		return c.handleTCP(eh, iph, data)
+	case 17:
+		return c.handleUDP(eh, iph, data)
+	}
+	return nil
+}
+
+// DrainTx removes and returns every frame queued in the transmit ring.
+func (v *VerifCanary) DrainTx() [][]byte {
+	var out [][]byte
+	for {
+		hdr := [2]byte{}
+		if _, err := v.C.buffer.ReadAndMaybeAdvance(hdr[:], true); err != nil {
+			break
+		}
+		n := int(hdr[0])<<8 + int(hdr[1])
+		b := make([]byte, n)
+		m, err := v.C.buffer.Read(b)
+		if err != nil {
+			break
+		}
+		out = append(out, b[:m])
+	}
+	return out
+}
+
+// StateCount returns the number of occupied slots of the state table.
+func (v *VerifCanary) StateCount() int {
+	n := 0
+	for _, s := range v.C.stateTable {
+		if s != nil {
+			n++
+		}
+	}
+	return n
+}
+
+// StateInfo describes the connection record found for the 4-tuple (nil if none).
+type StateInfo struct {
+	State                                            SocketState
+	ISS, SendUnacknowledged, SendNext, RecvNext, IPID uint32
+	SrcPort, DestPort                                uint16
+	SrcIP, DestIP                                    net.IP
+}
+
+func (v *VerifCanary) State(srcIP, dstIP net.IP, srcPort, dstPort uint16) *StateInfo {
+	s := v.C.stateTable.Get(srcIP, dstIP, srcPort, dstPort)
+	if s == nil {
+		return nil
+	}
+	return &StateInfo{State: s.State, ISS: s.InitialSendSequenceNumber, SendUnacknowledged: s.SendUnacknowledged,
+		SendNext: s.SendNext, RecvNext: s.RecvNext, IPID: s.ID, SrcPort: s.SrcPort, DestPort: s.DestPort, SrcIP: s.SrcIP, DestIP: s.DestIP}
+}
+
+// Close releases the descriptors.
+func (v *VerifCanary) Close() {
+	syscall.Close(v.PeerFd)
+	for _, fd := range v.C.descriptors {
+		syscall.Close(int(fd))
+	}
+	syscall.Close(v.C.epfd)
+}
